@@ -272,8 +272,11 @@ func runC14(c *kit.Ctx) {
 		c.Check(good, peek, "peek-error-while-open", r.Pos(), "peek's error comes from fetch, called only on the not-closed edge", "peek can produce an error while the scanner is closed")
 	})
 
+	errorCarriesAssembledRow(c)
+
 	// ---- R5 ---------------------------------------------------------------
 	c.StartRule("R5", "the renewer is cancelled before every fetch and on close", 2)
+	renewerStopsOnError(c)
 	cancelCall := func(in ssa.Instruction) bool {
 		call, ok := in.(*ssa.Call)
 		return ok && !call.Call.IsInvoke() && isLoadOfField(call.Call.Value, renewF)
